@@ -165,23 +165,25 @@ pub fn exec(case: &Value, out: &mut Out) {
 const TYS: [&str; 2] = ["rat", "f64"];
 
 /// generator-side bookkeeping of the pattern (only to choose arguments; never an oracle)
-struct Track { rows: usize, cols: usize, ent: BTreeMap<(usize, usize), i64>, growth: u32, zeros: bool }
+struct Track { rows: usize, cols: usize, ent: BTreeMap<(usize, usize), i64>, growth: u32 }
 
-/// entry values are non-zero: whether an explicitly stored zero is kept as an entry is a representation
-/// choice the property does not fix, so C06 cases never store one (C07 cases may scale by zero: products only)
+/// non-zero entry value
 fn nzval(rng: &mut StdRng) -> i64 { let v = rng.gen_range(1..=9); if rng.gen_bool(0.5) { -v } else { v } }
+/// entry value that is an explicit zero now and then: the property fixes the VALUE at every position (every
+/// view must report 0 there afterwards), not whether the zero is kept as a stored entry
+fn zval(rng: &mut StdRng, p0: f64) -> i64 { if rng.gen_bool(p0) { 0 } else { nzval(rng) } }
 
 /// random duplicate-free pattern with `n` entries (n <= r*c), values random
 fn pattern(rng: &mut StdRng, r: usize, c: usize, n: usize) -> Vec<(usize, usize, i64)> {
     let mut all: Vec<(usize, usize)> = (0..r).flat_map(|i| (0..c).map(move |j| (i, j))).collect();
     all.shuffle(rng); all.truncate(n);
-    all.into_iter().map(|(i, j)| (i, j, nzval(rng))).collect()
+    all.into_iter().map(|(i, j)| (i, j, zval(rng, 0.08))).collect()
 }
 /// pattern confined to the given columns / rows (leaves empty columns and rows at either end)
 fn pattern_in(rng: &mut StdRng, rows: &[usize], cols: &[usize], n: usize) -> Vec<(usize, usize, i64)> {
     let mut all: Vec<(usize, usize)> = rows.iter().flat_map(|i| cols.iter().map(move |j| (*i, *j))).collect();
     all.shuffle(rng); all.truncate(n);
-    all.into_iter().map(|(i, j)| (i, j, nzval(rng))).collect()
+    all.into_iter().map(|(i, j)| (i, j, zval(rng, 0.08))).collect()
 }
 fn jts(ts: &[(usize, usize, i64)]) -> Value { Value::from(ts.iter().map(|t| json!([t.0, t.1, t.2])).collect::<Vec<Value>>()) }
 fn ctor_triplets(r: usize, c: usize, ts: &[(usize, usize, i64)]) -> Value { json!({"op": "from_triplets", "arg": {"rows": r, "cols": c, "ts": jts(ts)}}) }
@@ -191,7 +193,7 @@ fn ctor_vecs(r: usize, c: usize, ts: &[(usize, usize, i64)]) -> Value {
     for j in 0..c { for t in ts.iter().filter(|t| t.1 == j) { val.push(t.2); ri.push(t.0); } cs.push(val.len()); }
     json!({"op": "from_vecs", "arg": {"rows": r, "cols": c, "val": val, "ri": ri, "cs": cs}})
 }
-fn track_of(r: usize, c: usize, ts: &[(usize, usize, i64)]) -> Track { Track { rows: r, cols: c, ent: ts.iter().map(|t| ((t.0, t.1), t.2)).collect(), growth: 0, zeros: false } }
+fn track_of(r: usize, c: usize, ts: &[(usize, usize, i64)]) -> Track { Track { rows: r, cols: c, ent: ts.iter().map(|t| ((t.0, t.1), t.2)).collect(), growth: 0 } }
 /// random constructor step for a random pattern on r x c
 fn rand_ctor(rng: &mut StdRng, r: usize, c: usize) -> (Value, Track) {
     let cap = r * c;
@@ -216,18 +218,18 @@ fn rand_mod(rng: &mut StdRng, t: &mut Track) -> Value {
             0..=3 => { // insert a new entry
                 let free: Vec<(usize, usize)> = (0..t.rows).flat_map(|i| (0..t.cols).map(move |j| (i, j))).filter(|p| !t.ent.contains_key(p)).collect();
                 if free.is_empty() { continue; }
-                let p = free[rng.gen_range(0..free.len())]; let v = nzval(rng); t.ent.insert(p, v);
+                let p = free[rng.gen_range(0..free.len())]; let v = zval(rng, 0.12); t.ent.insert(p, v);
                 return json!({"op": "insert", "i": p.0, "j": p.1, "v": v});
             }
             4 | 5 => { // overwrite an existing entry
                 if t.ent.is_empty() { continue; }
                 let keys: Vec<(usize, usize)> = t.ent.keys().cloned().collect();
-                let p = keys[rng.gen_range(0..keys.len())]; let v = nzval(rng); t.ent.insert(p, v);
+                let p = keys[rng.gen_range(0..keys.len())]; let v = zval(rng, 0.25); t.ent.insert(p, v);
                 return json!({"op": "insert", "i": p.0, "j": p.1, "v": v});
             }
             6 | 7 => { // scale (magnitude growth is bounded so that every number stays far inside 32 bits)
                 let a = [-1i64, 2, -2, 3, 1, 0][rng.gen_range(0..6)];
-                if a == 0 && (!t.zeros || rng.gen_bool(0.8)) { continue; }
+                if a == 0 && rng.gen_bool(0.6) { continue; }
                 if a.abs() > 1 { if t.growth >= 5 { continue; } t.growth += 1; }
                 for v in t.ent.values_mut() { *v *= a; }
                 return json!({"op": "scale", "a": a});
@@ -239,6 +241,37 @@ fn rand_mod(rng: &mut StdRng, t: &mut Track) -> Value {
             }
         }
     }
+}
+
+/// history centred on explicit zeros: overwrite an existing entry with 0, insert a new 0, scale by 0,
+/// transposes in between (a stored zero must survive or vanish consistently), then non-zero values again.
+/// `with_products` interleaves products events (C07).
+fn zero_history(rng: &mut StdRng, r: usize, c: usize, with_products: bool) -> Vec<Value> {
+    let cap = r * c;
+    let n = rng.gen_range(1..=cap.min(r + c + 2));
+    let mut ts: Vec<(usize, usize, i64)> = pattern(rng, r, c, n).into_iter().map(|t| (t.0, t.1, if t.2 == 0 { 5 } else { t.2 })).collect();
+    ts.shuffle(rng);
+    let mut t = track_of(r, c, &ts);
+    let mut steps = vec![if rng.gen_bool(0.3) { ctor_vecs(r, c, &ts) } else { ctor_triplets(r, c, &ts) }];
+    let pr = |rng: &mut StdRng, t: &Track, steps: &mut Vec<Value>| { if with_products { steps.push(products_step(rng, t)); } };
+    let tr = |t: &mut Track, steps: &mut Vec<Value>| { let e: BTreeMap<(usize, usize), i64> = t.ent.iter().map(|(k, v)| ((k.1, k.0), *v)).collect(); t.ent = e; std::mem::swap(&mut t.rows, &mut t.cols); steps.push(json!({"op": "transpose"})); };
+    let ins = |t: &mut Track, p: (usize, usize), v: i64, steps: &mut Vec<Value>| { t.ent.insert(p, v); steps.push(json!({"op": "insert", "i": p.0, "j": p.1, "v": v})); };
+    // overwrite an existing entry with zero
+    let keys: Vec<(usize, usize)> = t.ent.keys().cloned().collect();
+    let p0 = keys[rng.gen_range(0..keys.len())];
+    ins(&mut t, p0, 0, &mut steps); pr(rng, &t, &mut steps);
+    if rng.gen_bool(0.5) { tr(&mut t, &mut steps); pr(rng, &t, &mut steps); }
+    // a new entry whose value is zero
+    let free: Vec<(usize, usize)> = (0..t.rows).flat_map(|i| (0..t.cols).map(move |j| (i, j))).filter(|p| !t.ent.contains_key(p)).collect();
+    if !free.is_empty() { let p = free[rng.gen_range(0..free.len())]; ins(&mut t, p, 0, &mut steps); pr(rng, &t, &mut steps); }
+    tr(&mut t, &mut steps); pr(rng, &t, &mut steps);
+    // a non-zero value over a zero, then everything scaled by zero, then life goes on
+    let zs: Vec<(usize, usize)> = t.ent.iter().filter(|(_, v)| **v == 0).map(|(k, _)| *k).collect();
+    if !zs.is_empty() && rng.gen_bool(0.6) { let p = zs[rng.gen_range(0..zs.len())]; let v = nzval(rng); ins(&mut t, p, v, &mut steps); pr(rng, &t, &mut steps); }
+    if rng.gen_bool(0.5) { for v in t.ent.values_mut() { *v = 0; } steps.push(json!({"op": "scale", "a": 0})); pr(rng, &t, &mut steps); }
+    for _ in 0..3 { steps.push(rand_mod(rng, &mut t)); }
+    pr(rng, &t, &mut steps);
+    steps
 }
 
 fn permutations(n: usize) -> Vec<Vec<usize>> {
@@ -317,6 +350,12 @@ fn gen_c06(quick: bool, seed: u64, out: &mut Out) {
         }
         push(out, TYS[h % 2], steps);
     }
+    // (f) explicit zeros: overwrite with 0, new 0 entry, scale by 0, zero values in constructor inputs
+    for h in 0..(if quick { 80 } else { 800 }) {
+        let (r, c) = (rng.gen_range(1..=8usize), rng.gen_range(1..=8usize));
+        let steps = zero_history(&mut rng, r, c, false);
+        push(out, TYS[h % 2], steps);
+    }
 }
 
 fn gen_c07(quick: bool, seed: u64, out: &mut Out) {
@@ -327,7 +366,7 @@ fn gen_c07(quick: bool, seed: u64, out: &mut Out) {
     let reps = if quick { 2 } else { 8 };
     for r in 0..=10usize { for c in 0..=10usize { for rep in 0..reps {
         let ty = TYS[(r + c + rep) % 2];
-        let (st, mut t) = rand_ctor(&mut rng, r, c); t.zeros = true;
+        let (st, mut t) = rand_ctor(&mut rng, r, c);
         let mut steps = vec![st, products_step(&mut rng, &t)];
         for _ in 0..4 { steps.push(rand_mod(&mut rng, &mut t)); steps.push(products_step(&mut rng, &t)); }
         push(out, ty, steps);
@@ -342,7 +381,7 @@ fn gen_c07(quick: bool, seed: u64, out: &mut Out) {
         for (n, mut ts) in [vec![], full, diag, lastcol, firstrow, inner].into_iter().enumerate() {
             if quick && (r + c + n) % 3 != 0 { continue; }
             ts.shuffle(&mut rng);
-            let mut t = track_of(r, c, &ts); t.zeros = true;
+            let mut t = track_of(r, c, &ts);
             let mut steps = vec![if n % 2 == 0 { ctor_triplets(r, c, &ts) } else { ctor_vecs(r, c, &ts) }];
             for _ in 0..2 { steps.push(products_step(&mut rng, &t)); }
             steps.push(json!({"op": "transpose"})); { let e: BTreeMap<(usize, usize), i64> = t.ent.iter().map(|(k, v)| ((k.1, k.0), *v)).collect(); t.ent = e; std::mem::swap(&mut t.rows, &mut t.cols); }
@@ -353,9 +392,15 @@ fn gen_c07(quick: bool, seed: u64, out: &mut Out) {
     // (c) longer histories with a products event after every second modification
     for h in 0..(if quick { 50 } else { 300 }) {
         let (r, c) = (rng.gen_range(0..=10usize), rng.gen_range(0..=10usize));
-        let (st, mut t) = rand_ctor(&mut rng, r, c); t.zeros = true;
+        let (st, mut t) = rand_ctor(&mut rng, r, c);
         let mut steps = vec![st, products_step(&mut rng, &t)];
         for k in 0..30 { steps.push(rand_mod(&mut rng, &mut t)); if k % 2 == 1 { steps.push(products_step(&mut rng, &t)); } }
+        push(out, TYS[h % 2], steps);
+    }
+    // (d) explicit zeros in the matrix (overwrite with 0, new 0 entry, scale by 0) with products in between
+    for h in 0..(if quick { 40 } else { 400 }) {
+        let (r, c) = (rng.gen_range(1..=10usize), rng.gen_range(1..=10usize));
+        let steps = zero_history(&mut rng, r, c, true);
         push(out, TYS[h % 2], steps);
     }
 }
